@@ -114,6 +114,16 @@ class SpecMixin:
             return se.st.out
         if n in source.classes():
             return VFunc("class", name=n)
+        # a local with a declared loop type that is not bound on this path (bound on other paths joined at the loop head):
+        # an arbitrary value of that type
+        c = getattr(se.ctx, "contract", None)
+        if c is not None:
+            for spec in c.loops.values():
+                ty = (spec.get("types") or {}).get(n)
+                if ty is not None:
+                    v = fresh_value(se.st, parse_ty(ty), n + "!unbound")
+                    se.env[n] = v
+                    return v
         raise KeyError(n)
 
     def sp_Tuple(self, e, se):
